@@ -1,7 +1,7 @@
 #!/bin/sh
 # validate_all_seeds.sh [tier] : runs validate_seed.sh for every /verif/seeded/<Cxx-mk>/ and prints a report
 TIER=${1:-quick}
-for d in /verif/seeded/C*-m*; do
+for d in ${SEEDS_DIR:-/verif/seeded}/C*-*m*; do
   id=$(basename $d); p=${id%%-*}
   echo "=== $id ($TIER)"
   /verif/tools/validate_seed.sh $d $p $TIER 2>&1 | grep -E "^RESULT|^CHECK|^VIOLATION|^OK|^unconfirmed|MISMATCH|INFRA|^   (assert|panic|race|deadlock)|cannot" | cut -c1-230 | head -12
